@@ -20,8 +20,36 @@ class Built:
         grds = [g for g in spec.guards if g not in missing]
         self.logic = make_logic(self.ctl, acts, grds, services, delays)
         self.machine = create_machine(spec.config, logic=self.logic)
-        self.defn = export_machine(self.machine, self.ctl)
+        self.defn = export_machine(self.machine, self.ctl, events=getattr(spec, "events", None),
+                                   intended_guards=intended_guards(spec.config))
         self.ctx_keys = sorted(self.defn["ctx0"].keys())
+
+
+def intended_guards(config: dict) -> Dict[str, Any]:
+    """marker action name -> the raw guard (guard or cond key) of the transition config that carries it."""
+    out: Dict[str, Any] = {}
+
+    def tr(x):
+        for t in (x if isinstance(x, list) else [x]):
+            if isinstance(t, dict):
+                raw = t.get("guard", t.get("cond"))
+                acts = t.get("actions")
+                for a in (acts if isinstance(acts, list) else [acts] if acts else []):
+                    if isinstance(a, str) and a.startswith("tr:"):
+                        out[a] = raw
+
+    def walk(node):
+        for v in (node.get("on") or {}).values():
+            tr(v)
+        for key in ("always", "onDone"):
+            if node.get(key):
+                tr(node[key])
+        for c in (node.get("states") or {}).values():
+            if isinstance(c, dict):
+                walk(c)
+
+    walk(config)
+    return out
 
 
 def build_all(specs: List[Spec]) -> List[Built]:
